@@ -98,6 +98,8 @@ structure S where
   hinted : List Nat := []
   cachedSorted : List Nat := []
   log : List String := []                   -- provider call log, newest first: c<n> d<s> p<k>/P<k>
+  issuedCands : List Nat := []              -- ghost: packages whose candidates were requested in this solve, newest first
+                                            -- (updated exactly where `c<n>` is logged; the driver compares the two)
   polls : Nat := 0
   cancelAt : Option Nat := none             -- signal up at this poll number
   cancelAtCall : Option Nat := none         -- signal goes up when this provider request starts
@@ -329,7 +331,8 @@ def getCandidates (U : Universe) (n : Nat) : M Pkg := do
   if !s.fetchedCands.contains n then
     pollCancel
     let p := (U.pkg? n).getD { cands := [] }
-    modify fun s => { s with fetchedCands := n :: s.fetchedCands, hinted := s.hinted ++ hintedBy p, log := s!"c{n}" :: s.log }
+    modify fun s => { s with fetchedCands := n :: s.fetchedCands, hinted := s.hinted ++ hintedBy p, log := s!"c{n}" :: s.log,
+                             issuedCands := n :: s.issuedCands }
     requestStarted
   pure ((U.pkg? n).getD { cands := [] })
 
